@@ -354,6 +354,12 @@ func c07Release(p *chk.Prog, r *chk.Report) {
 		x.Check("releasedIPs:some-previous-address-not-held", rf.Pos(), okk, "", "releasedIPs does not return true exactly when some previously held address is missing from the current ones")
 	}
 
+	setPoolsRule(p, r)
+}
+
+// setPoolsRule (C07, shared with C02, C06): a pool update reaches the allocator and the controller's own view together
+// and is followed by the full pass.
+func setPoolsRule(p *chk.Prog, r *chk.Report) {
 	y := r.Rule("SETPOOLS-REPROCESS", "B path", "controller.SetPools installs the pools in the allocator and in the controller and its only success return is SyncStateReprocessAll; allocator.SetPools Unassigns (hence frees) every allocation no pool contains", 2)
 	sp := need(y, p, "controller", "controller", "SetPools")
 	if sp != nil {
@@ -373,6 +379,20 @@ func c07Release(p *chk.Prog, r *chk.Report) {
 		}
 		st := sg.Find(sp.IsAssignPat("RECV.pools", "P", chk.H("P", pools)))
 		y.Check("SetPools:controller-pools-updated", sp.Pos(), len(st) == 1, "", "the controller's own view of the pools is not updated")
+		// on every path that hands the pools to the allocator: the two views never differ (SetBalancer is a no-op while
+		// c.pools is nil - a first full pass over an allocator that has pools the controller does not know about opens the
+		// gate of the initial load without having re-adopted anything)
+		isStore := sp.IsAssignPat("RECV.pools", "P", chk.H("P", pools))
+		for _, rt := range sg.Returns() {
+			if sg.Dominated(rt, sg.GPat(true, "P == nil || P.ByName == nil", chk.H("P", pools))) {
+				continue
+			}
+			if (&chk.Walk{G: sg, Hit: func(n ast.Node) bool { return n == rt.Top }, Stop: inst}).Run().Found {
+				continue // not through the allocator's SetPools: judged above
+			}
+			w := sg.MustPass(chk.Site{}, func(n ast.Node) bool { return n == rt.Top }, false, isStore)
+			y.Check("SetPools:both-views-updated-together", rt.Pos(), !w.Found, "", "SetPools can hand the pools to the allocator without storing them in the controller (the store is conditional): the controller goes on treating every Service event as `no configuration yet` while the allocator hands out addresses, and the first full pass re-adopts nothing")
+		}
 	}
 }
 
